@@ -56,8 +56,7 @@ def diagMatvec (d : List α) (x : Tensor α) : Except Err (Tensor α) :=
     .ok (Tensor.ofFn x.shape (fun idx => d.getD (idx.getD 0 0) 0 * x.get idx))
 
 def diagDot (d : List α) (x : Tensor α) : Except Err (Tensor α) :=
-  -- `diag = np.squeeze(diag); assert diag.ndim == 1`: a one-entry diagonal is squeezed to 0-d
-  if d.length = 1 then .error .assertion else
+  -- `diag = np.atleast_1d(np.squeeze(diag))` (fix ac6496d): a one-entry diagonal stays 1-D
   linopDot d.length d.length (diagMatvec d) (diagMatvec d) x
 
 /-! ### KroneckerOperator (operators.py l.60-86) -/
@@ -72,7 +71,8 @@ def kronApplyfunc (ops : List (Op α)) (x : Tensor α) : Except Err (Tensor α) 
 def kronDot (ops : List (Op α)) (x : Tensor α) : Except Err (Tensor α) :=
   linopDot (prod (ops.map (·.m))) (prod (ops.map (·.n))) (kronApplyfunc ops) (kronApplyfunc ops) x
 
-/-- `_transpose`: `KroneckerOperator(*(B.T for B in self.ops))` -/
+/-- `_transpose`: `KroneckerOperator(*(B.T for B in self.ops))`; `_adjoint` (fix 8b80f7d):
+`_adjoint_of(B)` = `B.H` / `B.conj().T`, which for the real scalars modelled here is `B.T` again -/
 def kronT (ops : List (Op α)) : List (Op α) := ops.map Op.T
 
 /-! ### BaseBlockOperator / BlockDiagonalOperator / BlockOperator (operators.py l.89-178) -/
